@@ -2,4 +2,4 @@ From CV Require Import Text.Strquote Text.TextSpec Text.TextM.
 From Coq Require Import ExtrOcamlBasic.
 Extraction Language OCaml.
 Extraction "text_model.ml" append quote quote_prefix hex_digit parse_literal parse_text parse_value
-  print shown render encode run_history encode_again cfg_prefix cfg_fixed.
+  print shown render encode run_history encode_again cfg_prefix cfg_fixed enc_init use_registry encode_e encode_list_e encode_list shown_list run_ops.
